@@ -9,10 +9,14 @@ from ..finite import ConstEval, MemberObj, Undecidable, allowed_sets, local_tabl
 from ..program import FuncInfo, norm
 from ..report import Finding, RuleResult
 
-SPEC_DRIVEN = {
-    "conditions.ConditionLike.from_spec": "condition class (datum kind / pre-processor class)",
-    "datapath.DataPath.from_spec": "DataPath object",
-}
+from ..anchors import condition_parser, path_parser
+
+
+def spec_driven(prog):
+    return {
+        condition_parser(prog).qualname: "condition class (datum kind / pre-processor class)",
+        path_parser(prog).qualname: "DataPath object",
+    }
 
 
 def getattr_sites(prog):
@@ -47,6 +51,8 @@ def rule_reflect(ctx):
     ctor_names = {n for c in (gen, mp) for n, f in c.methods.items() if f.kind == "classmethod"}
     ctor_names |= {n for c in (gen, mp) for n, v in c.attrs.items() if isinstance(v, ast.Name) and v.id in c.methods}
     seen_spec_sites = 0
+    SPEC_DRIVEN = spec_driven(prog)
+    cond_parser_q = condition_parser(prog).qualname
     for f, call, txt, allowed in getattr_sites(prog):
         inst = {"site": f"{f.qualname}: {norm(call)}", "name_expr": txt,
                 "allowed_names": sorted(allowed) if allowed is not None else None}
@@ -63,7 +69,7 @@ def rule_reflect(ctx):
                 continue
             # every allowed name must be a DSL name of the receiver kind
             bad = []
-            if f.qualname == "conditions.ConditionLike.from_spec":
+            if f.qualname == cond_parser_q:
                 value, key = prog.cls("conditions.Value"), prog.cls("conditions.Key")
                 for nm in sorted(allowed):
                     is_ctor = nm in ctor_names
